@@ -20,7 +20,7 @@ def main():
             na.append({"property_id": pid, "reason": P.DISABLED})
             continue
         groups.add(P.GROUP)
-        lean_targets += [P.LEAN_PROPS, "drive_" + P.GROUP]
+        lean_targets += [P.LEAN_PROPS, P.LEAN_AUDIT, "drive_" + P.GROUP] + list(getattr(P, "GEN_PROPS", [])) + list(getattr(P, "GEN_AUDIT", []))
         checks.append({
             "property_id": pid,
             "quick_cmd": "./check %s --tier quick" % pid,
